@@ -75,7 +75,7 @@ def simple_tx_desc(n_in=1, n_out=1, witness=(), salt=0, version=1, lock_time=0):
 
 
 WITNESS_KINDS = ("none", "e", "ee", "x", "ex", "n253", "i253", "i65536")
-WITNESS_KINDS_MORE = ("i252", "i65535", "xe")
+WITNESS_KINDS_MORE = ("i252", "i65535", "xe", "i131072")
 
 
 def witness_items(kind, salt=0):
@@ -176,15 +176,15 @@ AXES = [  # name, alphabet (first = base value)
     ("version", [1, 0, 2, 2 ** 31, U32]),
     ("lock_time", [0, 1, 2, 2 ** 31, U32]),
     ("n_out", [1, 0, 2, 252, 253]),
-    ("in_script", [1, 0, 75, 76, 252, 253, 65535, 65536]),
+    ("in_script", [1, 0, 75, 76, 252, 253, 65535, 65536, 131072]),
     ("out_script", [1, 0, 75, 76, 252, 253, 65535, 65536]),
     ("amount", [1, 0, 2 ** 63 - 1, 2 ** 63, 2 ** 64 - 1]),
     ("sequence", [U32, 0, 1, 2 ** 31, U32 - 1]),
-    ("prev", ["A", "zero", "ff"]),
+    ("prev", ["A", "zero", "ff", "null"]),          # "null" = the coinbase outpoint (zero hash AND index 2^32-1) as ONE deviation
     ("index", [0, 1, U32]),
     ("unspents", ["none", "std", "big", "zero"]),
 ]
-AXES_THOROUGH_EXTRA = {"in_script": [77, 254, 65534], "out_script": [77, 254], "amount": [2 ** 32, 2 ** 32 - 1],
+AXES_THOROUGH_EXTRA = {"in_script": [77, 254, 65534], "out_script": [77, 254, 131072, 196608], "amount": [2 ** 32, 2 ** 32 - 1],
                        "n_out": [3, 254]}
 
 
@@ -233,12 +233,12 @@ def expand_case(case):
     ax = case["axes"]
     ws = expand_ws(ax["witness"])
     n_in = len(ws)
-    prev = {"A": case["prevA"], "zero": "00" * 32, "ff": "ff" * 32}
+    prev = {"A": case["prevA"], "zero": "00" * 32, "ff": "ff" * 32, "null": "00" * 32}
     ins = []
     for k in range(n_in):
         last = k == n_in - 1
         ins.append({"prev": prev[ax["prev"]] if last else prev["A"],
-                    "index": ax["index"] if last else 100 + k,
+                    "index": (U32 if ax["prev"] == "null" else ax["index"]) if last else 100 + k,
                     "script": [ax["in_script"], k] if last else [1, k],
                     "sequence": ax["sequence"] if last else U32 - 2 - k,
                     "witness": witness_items(ws[k], k)})
@@ -393,6 +393,18 @@ class Transactions(Driver):
                        "%s differ: id()=%s w_id()=%s" % (which, ids[1], ids[3]), clause="tx-id")
         if (want_hash != want_whash) != extended:
             raise ModelInvalid("reference ids: witness coverage")
+        # 4b. the witness-stripped serialisation itself, through every route that offers it
+        try:
+            f = io.BytesIO()
+            P.stream(f, include_witness_data=False)
+            stripped = (P.as_bin(include_witness_data=False), P.as_hex(include_witness_data=False), f.getvalue())
+            n += 3
+        except Exception as e:
+            return BAD("stripped-raises", "as_bin / as_hex / stream(include_witness_data=False) work", exc(e), clause="tx-stripped")
+        if stripped != (ref_stripped, ref_stripped.hex(), ref_stripped):
+            which = [nm for nm, a, b in zip(("as_bin", "as_hex", "stream"), stripped, (ref_stripped, ref_stripped.hex(), ref_stripped)) if a != b]
+            return BAD("stripped-differs", "witness-stripped serialisation %s" % short(ref_stripped), "%s(include_witness_data=False) differ" % which,
+                       clause="tx-stripped")
         # 5. appended spent outputs
         if unspents is not None:
             RU = [{"value": ival(u["value"]), "script": mkbytes(u["script"])} for u in unspents]
@@ -449,7 +461,8 @@ SP_FORMS = ("text", "dict", "bin-parse", "bin-roundtrip")
 
 class Spendables(Driver):
     id = "C07.spendable"
-    rule = ("one state = one Spendable (7 fields from boundary alphabets, full product) in one of its forms; "
+    rule = ("one state = one Spendable (7 fields from boundary alphabets, full product; spent flag from the constructor or re-assigned as a "
+            "bool on the finished object) in one of its forms; "
             "non-trivial = any field off its default / a compact-size boundary crossed")
 
     def __init__(self, tier, seed):
@@ -479,6 +492,10 @@ class Spendables(Driver):
             for form in SP_FORMS:
                 case = dict(unit, index=index, block_index_available=bia, spent=spent, block_index_spent=bis, form=form)
                 yield case, self.run(case)
+                if form != "bin-parse":
+                    # the flag re-assigned on the finished object as a bool, the way the library's own wallet marks records
+                    case = dict(case, flag_by="attr-bool")
+                    yield case, self.run(case)
 
     def run(self, case):
         S = {"value": ival(case["value"]), "script": mkbytes(case["script"]), "tx_hash": mkbytes(case["tx_hash"]),
@@ -504,6 +521,9 @@ class Spendables(Driver):
             sp = Sp(S["value"], S["script"], S["tx_hash"], S["index"], S["block_index_available"], bool(S["spent"]), S["block_index_spent"])
             if diff(fields(sp)):
                 return BAD("constructor", "constructor keeps the fields", diff(fields(sp)), clause="spendable-ctor")
+            if case.get("flag_by") == "attr-bool":
+                sp.does_seem_spent = bool(S["spent"])
+                cls += ":flag-assigned"
         except Exception as e:
             return BAD("constructor", "Spendable(...) constructs", exc(e), clause="spendable-ctor")
         if form == "text":
